@@ -23,6 +23,8 @@ type C17Op struct {
 	// PID != 0: the packet's PID (default: 0x30 + Ser%7). An accumulator takes what it is given;
 	// which PID that is - the null PID 0x1FFF and PID 0 (written as 0x2000) included - is the caller's business
 	PID int `json:"pid,omitempty"`
+	// TSC: transport_scrambling_control (2 bits). Where the payload starts does not depend on it.
+	TSC int `json:"tsc,omitempty"`
 }
 
 // PredSpec is a completion predicate that is a pure function of the bytes it
@@ -63,11 +65,17 @@ func (c17) Info() core.Info {
 			"only slice-level independence of Packets() is demanded",
 			"a predicate result (true, err) with err != nil is an error and not a completion (Go convention: other results mean nothing next to a non-nil error)",
 		},
-		RequiredProbes: []string{"payload_all_ff", "pred_err_is_done_sentinel", "very_long_unit", "reserved_afc_packet", "pusi_without_payload", "held_results_checked", "second_pusi_restart", "refused_before_start", "write_after_done", "pred_err", "nopayload_packet", "reset_mid", "buffer_reused", "scribbled", "done_at_first_packet", "empty_payload_packet", "af_overrun_packet", "pred_err_with_done_true", "reset_after_unit_of_268_packets_or_more", "same_packet_written_twice", "packet_on_the_null_pid"},
+		RequiredProbes: []string{"payload_all_ff", "pred_err_is_done_sentinel", "very_long_unit", "reserved_afc_packet", "pusi_without_payload", "held_results_checked", "second_pusi_restart", "refused_before_start", "write_after_done", "pred_err", "nopayload_packet", "reset_mid", "buffer_reused", "scribbled", "done_at_first_packet", "empty_payload_packet", "af_overrun_packet", "pred_err_with_done_true", "reset_after_unit_of_268_packets_or_more", "same_packet_written_twice", "packet_on_the_null_pid", "scrambled_packet_with_adaptation_field"},
 	}
 }
 
 func c17Packet(op C17Op) (packet.Packet, []byte, bool) {
+	p, pay, has := c17PacketBase(op)
+	p[3] |= byte(op.TSC&3) << 6
+	return p, pay, has
+}
+
+func c17PacketBase(op C17Op) (packet.Packet, []byte, bool) {
 	var p packet.Packet
 	p[0] = 0x47
 	pid := 0x30 + op.Ser%7
@@ -236,6 +244,11 @@ func (c17) Gen(r *core.Rand, tier string) interface{} {
 			op = s.Ops[i-1]
 		}
 		s.Ops = append(s.Ops, op)
+	}
+	if r.Chance(1, 6) {
+		for i := range s.Ops {
+			s.Ops[i].TSC = r.Intn(4) // scrambled packets
+		}
 	}
 	// swarm: which PIDs the packets are on
 	switch r.Intn(8) {
@@ -702,6 +715,9 @@ func (c17) Exec(script interface{}, c *core.Ctx) {
 			}
 			if shadow != nil && !run(shadow, spred, "after_reset:") {
 				return
+			}
+			if op.TSC != 0 && (op.Class == "afpay" || op.Class == "afonly") {
+				c.Probe("scrambled_packet_with_adaptation_field")
 			}
 			if op.PID&0x1FFF == 0x1FFF {
 				c.Probe("packet_on_the_null_pid")
